@@ -1251,6 +1251,45 @@ async fn slow_backend_in_a_crowd_family(cli: &Cli, report: &mut Report, late: &L
     }
 }
 
+/// How much time a client gets does not depend on when the client before it came: a client that
+/// arrives after the listener has been idle for longer than the connection timeout (and one that
+/// arrives after most of it) is served like the first.
+async fn after_a_quiet_gap_family(report: &mut Report, late: &LateLog) {
+    let direct = {
+        let _g = START.lock().await;
+        start_direct(DirectSpec { timeout: Duration::from_secs(2), ..Default::default() }).await
+    };
+    let addr = direct.addr;
+    let control = probe("control", addr, false, 61, BOUND).await;
+    if !control.served_within_bound() {
+        report.inconclusive("quiet gap: the control probe was not served");
+        direct.stop.cancel();
+        return;
+    }
+    for (k, gap_ms) in [1_600u64, 3_000, 5_000].into_iter().enumerate() {
+        tokio::time::sleep(Duration::from_millis(gap_ms)).await;
+        let started = Instant::now();
+        let p = if k == 1 { probe_login("login-after-a-quiet-gap", addr, false, 62 + k as u64, BOUND).await } else { probe("after-a-quiet-gap", addr, false, 62 + k as u64, BOUND).await };
+        report.eval(Some(&format!("quiet-gap/{gap_ms}ms")));
+        report.count("probes measured", 1);
+        let detail = json!({"connection_timeout_s": 2, "listener_idle_before_ms": gap_ms, "probe": p.label, "latency_ms": p.latency().map(|d| d.as_secs_f64() * 1000.0), "clientbound": p.clientbound});
+        report.sample(json!({"case": format!("a client arriving {gap_ms} ms after the one before it (timeout 2 s)"), "observed": detail}));
+        if !p.served_within_bound() {
+            let worst = late.worst_between(started, started + BOUND + Duration::from_millis(100));
+            if worst > BOUND / 2 {
+                report.inconclusive(&format!("quiet gap/{gap_ms}ms: harness was starved ({worst:?} late), timing verdict void"));
+                continue;
+            }
+            report.violation(
+                "probe-delayed/proxy-off/after-a-quiet-gap",
+                &format!("a well-behaved client that arrived {gap_ms} ms after the previous connection was not served (connection timeout 2 s): what it is given depends on when somebody else came"),
+                detail,
+            );
+        }
+    }
+    direct.stop.cancel();
+}
+
 pub async fn run_prop(cli: &Cli) -> i32 {
     let mut report = Report::new(
         cli,
@@ -1269,6 +1308,7 @@ pub async fn run_prop(cli: &Cli) -> i32 {
         fd_exhaustion_family(cli, &mut report, &late).await;
         many_sources_family(cli, &mut report).await;
         slow_backend_in_a_crowd_family(cli, &mut report, &late).await;
+        after_a_quiet_gap_family(&mut report, &late).await;
     }
     report.finish()
 }
